@@ -14,7 +14,7 @@ Not decided: the tag arithmetic and byte layout as values (a decoder-based compa
 """
 import re
 
-from .. import mir, e3_trav as e3, discharge
+from .. import mir, roles, e3_trav as e3, discharge
 from ..common import CallGraph, table, call_matches, is_derive, with_closures, is_trait_call
 from ..engine import Result, ok, finding, assumption, where
 from ..facts import BrokenCheck
@@ -166,8 +166,16 @@ def handled_variants(F, f, self_local=1):
     return out
 
 
+def _converter(F, ty):
+    """the free function of tx3_cardano turning a `&ty` into PlutusData (historically compile_data_expr / compile_struct)"""
+    c = roles.by_signature(F, "tx3_cardano", ["&" + ty], "PlutusData")
+    if len(c) != 1:
+        raise BrokenCheck("expected one free function &%s -> PlutusData in tx3_cardano, found %r" % (ty, c))
+    return c[0]
+
+
 def sib(F, res):
-    a = F.fn("tx3_cardano::compile::compile_data_expr")
+    a = F.fns[_converter(F, EXPR)]
     b = F.fn("<%s as %sTryIntoData>::try_as_data" % (EXPR, P))
     ha, hb = handled_variants(F, a), handled_variants(F, b)
     if ha is None or hb is None:
@@ -178,7 +186,7 @@ def sib(F, res):
     else:
         res.add([finding("SIB", key, where(a), "datums (compile_data_expr) accept %s but redeemers (TryIntoData) accept %s: %s is encodable in one position and rejected in the other" % (
             sorted(ha), sorted(hb), sorted(ha ^ hb)))])
-    c = F.fn("tx3_cardano::compile::compile_struct")
+    c = F.fns[_converter(F, "tx3_tir::model::v1beta0::StructExpr")]
     d = F.fn("<tx3_tir::model::v1beta0::StructExpr as %sTryIntoData>::try_as_data" % P)
     uc = any(call_matches(t, P + "constr") for _, t in mir.calls(c))
     ud = any(call_matches(t, P + "constr") for _, t in mir.calls(d))
@@ -204,11 +212,17 @@ def order(F, res):
     for bi, s in aggs:
         rv = s["rv"]
         o = mir.provenance(f, du, rv["ops"][rv["fields"].index("constructor")], transparent_extra=("std::option::Option::<T>::ok_or",))
-        if any(x.kind == "call" and (x.callee.endswith("TypeDef::find_case_index") or x.callee.endswith("Iterator::position") or x.callee.endswith("::position")) for x in o):
-            good = True
-    g = F.fn("tx3_lang::ast::TypeDef::find_case_index")
-    pos = any((t.get("callee") or "").endswith("Iterator::position") or (t.get("resolved") or "").endswith("::position") for _, t in mir.calls(g))
-    if good and pos:
+        # the index comes from a `position()` search: either directly (helper inlined) or through a workspace helper
+        # (historically TypeDef::find_case_index) whose own body is that search
+        for x in o:
+            if x.kind != "call":
+                continue
+            if x.callee.endswith("Iterator::position") or x.callee.endswith("::position"):
+                good = True
+            elif x.callee in F.fns and F.fns[x.callee]["crate"] == "tx3_lang":
+                if any((t.get("callee") or "").endswith("Iterator::position") or (t.get("resolved") or "").endswith("::position") for b in with_closures(F, F.fns[x.callee]) for _, t in mir.calls(b)):
+                    good = True
+    if good:
         res.add([ok("ORDER", key, w, "constructor = type_def.find_case_index(case) = position in cases")])
     else:
         res.add([finding("ORDER", key, w, "the constructor index is not the position of the case in the type definition")])
@@ -327,7 +341,7 @@ def run(ctx):
     sib(F, res)
     order(F, res)
     cg = CallGraph(F, callbacks=False)
-    roots = ["tx3_cardano::compile::compile_data_expr", "tx3_cardano::compile::compile_struct",
+    roots = [_converter(F, EXPR), _converter(F, "tx3_tir::model::v1beta0::StructExpr"),
              "<%s as %sTryIntoData>::try_as_data" % (EXPR, P)]
     rows = table("e1_rows").get("C09", [])
     reach, _ = c12.panic_obligations(F, res, roots, rows, cg=cg)
